@@ -24,11 +24,11 @@ type primRec struct {
 }
 
 type nativeVector struct {
-	ID     int               `json:"id"`
-	Log    []primRec         `json:"log"`
-	Params map[string]int    `json:"params"`
-	Expect string            `json:"expect"` // ok | violation | panic
-	Label  string            `json:"label"`
+	ID     int            `json:"id"`
+	Log    []primRec      `json:"log"`
+	Params map[string]int `json:"params"`
+	Expect string         `json:"expect"` // ok | violation | panic
+	Label  string         `json:"label"`
 }
 
 func nativePrims(pkg string, httpPkgs bool) string {
